@@ -96,7 +96,7 @@ class C14(Prop):
                 yield mk_case("skipnan", et, shape, vals, lay)
                 for axis in range(len(shape)):
                     yield mk_case("skipnan_axis", et, shape, vals, lays[(k + axis) % len(lays)], axis)
-        for _ in range(400 if tier == "quick" else 4000):
+        for _ in range(400 if tier == "quick" else 16000):
             nd = rng.range(1, 3)
             shape = [rng.range(1, 5) for _ in range(nd)]
             n = prod(shape)
@@ -105,7 +105,7 @@ class C14(Prop):
             axis = rng.below(nd)
             q = rng.choice([0.0, 1.0, 0.5, 0.25, 0.75, 1.0 / 3.0, 0.9, 0.49999999999999994, rng.below(1000) / 1000.0])
             yield mk_qsk_case(et, rng.below(5), shape, vals, q, rng.choice(zoo(shape, rng, 4)), axis, ("P", rng.below(3)))
-        for _ in range(150 if tier == "quick" else 2000):
+        for _ in range(150 if tier == "quick" else 8000):
             nd = rng.range(1, 3)
             shape = [rng.range(1, 5) for _ in range(nd)]
             n = prod(shape)
